@@ -434,8 +434,24 @@ func (w *c19World) Run(c *kernel.RunCtx) {
 	seeded := scribbleMode{on: true, kinds: uint32(c.U64n(1 << uint(evKinds))), fields: uint32(1 + c.Choose(31)), style: c.Choose(4)}
 	nAttach := 1 + c.Choose(3)
 	resumeAt := c.Choose(1 << 16)
+	c19SharedEngine = nil
+	if c.Bool(1, 2) {
+		c19SharedEngine = interpreter.NewEngine()
+		c.Count("probe.engine_reused_across_observers", 1)
+	}
 	c.End()
 	checkProgram(c, p, seeded, nAttach, resumeAt)
+}
+
+// c19SharedEngine: in half of the runs every execution of the run (with and without observers) goes through ONE
+// engine value, so state an engine keeps between executions is exercised too.
+var c19SharedEngine interpreter.Engine
+
+func c19Engine() interpreter.Engine {
+	if c19SharedEngine != nil {
+		return c19SharedEngine
+	}
+	return interpreter.NewEngine()
 }
 
 // checkProgram runs one program under every observer and applies all oracles.
@@ -445,14 +461,14 @@ func checkProgram(c *kernel.RunCtx, p *program, seeded scribbleMode, nAttach int
 	const maxVolume = 48 << 20
 	c.Exec()
 	var o0 outcome
-	if meter(true, func() { o0 = execProgram(p, nil) }) > 32<<20 {
+	if meter(true, func() { o0 = execProgramOn(c19Engine(), p, nil) }) > 32<<20 {
 		// a resource-hungry program (post-Genesis limits are MaxInt32): observing it 6 more times is not worth it
 		c.Count("probe.skipped_oversized_program", 1)
 		return
 	}
 	rec := &recorder{max: maxEvents, maxVolume: maxVolume, keep: true}
 	c.Exec()
-	o1 := execProgram(p, rec)
+	o1 := execProgramOn(c19Engine(), p, rec)
 	c.Logf("outcome none=%s recording=%s events=%d", o0, o1, len(rec.events))
 	if o1.class == "panic" && o1.text == errTooBig {
 		// observing this program would deep-copy too much stack data per callback: not explored
@@ -523,7 +539,7 @@ func checkProgram(c *kernel.RunCtx, p *program, seeded scribbleMode, nAttach int
 	for _, v := range variants {
 		r := &recorder{mode: v.mode, max: maxEvents}
 		c.Exec()
-		o := execProgram(p, r)
+		o := execProgramOn(c19Engine(), p, r)
 		c.Count("fault.scribble."+v.name, r.scribbled)
 		if !o0.same(o) {
 			c.Fail("verdict", site, "a debugger that %s changed the outcome: %s became %s (%s flags %x unlock %x lock %x; scribble kinds %x fields %x style %d)", v.name, o0, o, p.src, uint32(p.flags), p.unlock, p.lock, v.mode.kinds, v.mode.fields, v.mode.style)
@@ -651,7 +667,7 @@ func checkProgram(c *kernel.RunCtx, p *program, seeded scribbleMode, nAttach int
 			}
 		}
 		c.Exec()
-		o := execProgram(p, d)
+		o := execProgramOn(c19Engine(), p, d)
 		name := []string{"fan-out", "fan-out+scribbler"}[pass]
 		if !o0.same(o) {
 			c.Fail("verdict", site, "executing through debug.NewDebugger (%s) changed the outcome: %s became %s (%s flags %x unlock %x lock %x)", name, o0, o, p.src, uint32(p.flags), p.unlock, p.lock)
